@@ -13,6 +13,7 @@ CONSTANTS Alphabet,    \* payload bytes
           MaxLen, MaxPkts,
           Frames,      \* frame types to use; {PLAIN} = plain SLIP (no SLIPMUX layer); IPF = an IP frame (type = first payload byte)
           ZeroReads,   \* TRUE: chunk boundaries are visible as empty reads
+          IdlePolls,   \* how many consecutive empty reads a chunk boundary shows (a poll loop on an idle transport), >= 1
           MaxCuts,
           FixState,    \* TRUE: model a Reader that keeps escape/partial-packet state across calls
           Emit
@@ -50,7 +51,7 @@ Wire(pkts) == IF pkts = << >> THEN << >> ELSE WireOf(Head(pkts)) \o Wire(Tail(pk
 \* the stream the reader sees: the wire with GAP markers at the cut positions
 RECURSIVE WithGaps(_, _, _)
 WithGaps(w, cuts, i) == IF i > Len(w) THEN << >>
-                        ELSE <<w[i]>> \o (IF i \in cuts THEN <<GAP>> ELSE << >>) \o WithGaps(w, cuts, i + 1)
+                        ELSE <<w[i]>> \o (IF i \in cuts THEN [k \in 1..IdlePolls |-> GAP] ELSE << >>) \o WithGaps(w, cuts, i + 1)
 
 \* ---- Reader.ReadPacket: returns [p, prefix, pos, st]; st = [esc, partial] is state kept
 \* across calls (the code on the unfixed tree keeps none: FixState = FALSE ignores it) ----
@@ -122,7 +123,7 @@ Deliver ==
   /\ LET w == Wire(sent)
          s == IF ZeroReads THEN WithGaps(w, cuts, 1) ELSE w
      IN /\ delivered' = ReadAll(s, 1, St0, Mux, MaxPkts + 2)
-        /\ (Emit => PrintT(<<"T", ToJson([sent |-> sent, cuts |-> cuts, wire |-> w, zero |-> ZeroReads, mux |-> Mux, predicted |-> delivered'])>>))
+        /\ (Emit => PrintT(<<"T", ToJson([sent |-> sent, cuts |-> cuts, wire |-> w, zero |-> ZeroReads, idle |-> IdlePolls, mux |-> Mux, predicted |-> delivered'])>>))
   /\ done' = TRUE /\ UNCHANGED <<sent, cuts>>
 Next == Deliver
 
